@@ -17,11 +17,21 @@ def compare(case, verdict):
             return {"skipped": True}
         return {"agree": True, "holds": False, "detail": "history failed: " + str(info["skipped"])[:300]}
     bad = [k for k, v in verdict.get("oracle", {}).items() if v is False]
+    if case.get("k") == "machine":
+        # elementary-step traces: the machine model must reproduce the real bookkeeping after every call
+        model = verdict.get("model") or {}
+        agree = model.get("agree") is True
+        detail = "" if agree else "machine model and real bookkeeping differ: " + str(model.get("mismatches"))[:900]
+        if bad:
+            detail = "oracle failed: " + ",".join(sorted(bad)) + " " + detail
+        return {"agree": agree, "holds": not bad, "detail": detail}
     return {"agree": True, "holds": not bad,
             "detail": ("oracle failed: " + ",".join(sorted(bad)) + " " + str(info.get("bad"))[:900]) if bad else ""}
 
 
 def nontrivial(case, v):
+    if case.get("k") == "machine":
+        return v.get("info", {}).get("machine_steps", 0) >= 15
     steps = (case.get("impl") or {}).get("steps", [])
     return len(steps) >= 10 and any(len(s["book"]["routes"]) >= 2 for s in steps)
 
@@ -46,8 +56,13 @@ def extra(cases, verdicts):
         if any(s["reloads"] for v in sp.get("vehicles", []) for s in v["shifts"]): feats["reloads"] += 1
         if any(s["breaks"] for v in sp.get("vehicles", []) for s in v["shifts"]): feats["breaks"] += 1
     singles = {k: v for k, v in ops.items() if "+" not in k}
+    mcases = [c for c in cases if c.get("k") == "machine"]
+    msteps = sum(verdicts.get(c["id"], {}).get("info", {}).get("machine_steps", 0) for c in mcases)
+    mev = collections.Counter(e["ev"] + (":" + str(e["result"]) if "result" in e and isinstance(e["result"], bool) else "")
+                              for c in mcases for e in (c.get("impl") or {}).get("events", []))
     return {"operator_steps": steps, "distinct_operators_exercised": len(ops), "operators_available": total_ops + 1,
-            "non_pair_operator_steps": singles, "problem_features": dict(feats)}
+            "non_pair_operator_steps": singles, "problem_features": dict(feats),
+            "machine_traces": len(mcases), "machine_steps_compared": msteps, "machine_events": dict(mev)}
 
 
 PROP = dict(
@@ -61,9 +76,19 @@ PROP = dict(
          "infeasible search with repair, sequence exchange and diverse LKH built through their public constructors; half of the picks come "
          "from the non-pair operators so that each is exercised. After every step: bookkeeping by job index, every tour's activities and "
          "job set, stale flags, the pragmatic rendering, fingerprints of the parent before/after, cached state vs strip-and-recompute. "
-         "Non-trivial: >= 10 steps and >= 2 routes at some step. Distinct = SHA-256 of the canonical case input",
+         "One history in three runs under explicit objectives that keep per-solution aggregates (work balance, compact tours, soft tour "
+         "order), one in eight on long tours (30-44 jobs on 1-2 vehicles: the stochastic leg selection samples only from 16-32 legs on). "
+         "Elementary-step traces (300 quick / 3000 thorough): the real JobRemovalTracker (hook H3: try_remove_job, try_remove_route with "
+         "exact budgets, locked jobs from derived relations, absent jobs), InsertionContext::restore and InsertionHeuristic::process "
+         "(observing evaluator recording every evaluation result and the state it saw) are driven by a random script; after EVERY call "
+         "the machine model's state must equal the (abstracted) real bookkeeping. "
+         "Non-trivial: >= 10 steps and >= 2 routes at some step (histories), >= 15 machine steps (traces). Distinct = SHA-256 of the "
+         "canonical case input",
     modelled="SolutionContext bookkeeping as an abstract machine (insert into existing/fresh route, remove job unless locked, remove route, "
-             "finalize, conditional jobs, drop empty routes) and the Boolean invariants evaluated on the real snapshots (partB, regB, tourB, pinB)",
+             "finalize, conditional jobs, drop empty routes); JobRemovalTracker (both budgets, whole/partial route removal) and the "
+             "bookkeeping of InsertionHeuristic::process as compositions of machine steps (tryRemoveJob, tryRemoveRoute, processWith) - "
+             "these are compared call by call with the real functions; the strict-lock insertion rule Rule::can_insert (canInsert); the "
+             "Boolean invariants evaluated on the real snapshots (partB, regB, tourB, pinB)",
     traced="operator bodies: every snapshot of the real context after every step is judged by the Lean predicates and by the solver-level "
            "Lean specifications (Spec.feasible incl. relations, Spec.partition, Spec.replay) on its pragmatic rendering",
     out_of_model="the tabu list (search memory kept in the solution state, not a cache of the tours) is excluded from the cache comparison; "
@@ -75,12 +100,18 @@ PROP = dict(
 META = dict(
     text="Proof (Lean 4): the Boolean checks evaluated on real snapshots ARE the machine's predicates (partB_iff_part, regB_regPart); every "
          "elementary step and hence every operation sequence of the SolutionContext machine preserves partition and registry consistency "
-         "and never moves a locked job (steps_preserve_inv, run_part, run_reg, step_locked_stays); a child is a value, so the parent is "
-         "unchanged in the model. Tie: long random histories over EVERY shipped search operator on the real code; after every step the Lean "
+         "and never moves a locked job (steps_preserve_inv, run_part, run_reg, step_locked_stays); the removal tracker and the insertion "
+         "heuristic's bookkeeping are compositions of machine steps and inherit the invariants whatever the random choices were "
+         "(tryRemoveJob_inv, tryRemoveRoute_inv, processWith_inv, processWith_finalized, tryRemoveJob_locked_refused, dropEmpty_reg); a "
+         "strict lock's block stays contiguous under every insertion Rule::can_insert admits, for every position kind, and under removal of "
+         "any other job (strict_block_survives_insert, strict_block_survives_removal); a child is a value, so the parent is unchanged in "
+         "the model. Tie 1 (correspondence): on elementary-step traces of the REAL tracker / restore / process functions the machine model "
+         "reproduces the real bookkeeping after every call (0 disagreements required). Tie 2 (oracles): long random histories over EVERY shipped search operator on the real code; after every step the Lean "
          "predicates (partition over required/ignored/unassigned/routes, registry = fleet minus used actors, tour job sets, whole multi-jobs "
          "in permitted order, pinned jobs on their vehicle in their order) and the Lean solver-level specifications of C01-C03 are evaluated "
          "on the snapshot, the parent's fingerprint (bookkeeping, tours, schedules, every cached value, fitness) is compared before/after, "
          "and every cache is compared with strip-and-recompute.",
     note=COMMON_NOTE + " Operator bodies are traced, not proved: the theorems cover the bookkeeping protocol they all go through.",
-    technique="Lean 4 invariant over operation sequences of the SolutionContext machine + Lean-defined consistency oracles on real operator histories",
+    technique="Lean 4 invariant over operation sequences of the SolutionContext machine + call-by-call correspondence of the machine with the real "
+              "bookkeeping functions + Lean-defined consistency oracles on real operator histories",
 )
